@@ -91,7 +91,8 @@ def irq_obligations(prog, power, timers, V, O):
         if power == "halted":
             checks.append(("halted-cpu-resumes-when-a-status-bit-is-pending", z3.And((isr & 0x0F) != 0, inint == 0, halted1 == 1)))
     if power == "off" and timers:
-        checks.append(("powered-off-cpu-stops-both-timers", z3.Or(o(17, 8) != mt["next_mti"], o(18, 8) != mt["next_sti"], ((isr1 ^ isr) & 0x03) != 0)))
+        # while it stays off (no status bit pending to wake it)
+        checks.append(("powered-off-cpu-stops-both-timers", z3.And((isr & 0x0F) == 0, z3.Or(o(17, 8) != mt["next_mti"], o(18, 8) != mt["next_sti"], ((isr1 ^ isr) & 0x03) != 0))))
     # O7 RETI without a new delivery: IMR, F, PC and S restored from the frame
     if prog == "reti" and power == "running":
         checks.append(("reti-restores-imr-f-pc-s", z3.And(z3.Not(taken), executed, z3.Or(s1 != S + 5, imr1 != st[5], (f1 & 3) != (st[6] & 3), pc1 != z3.Extract(19, 0, z3.Concat(st[9], st[8], st[7]))))))
@@ -147,7 +148,8 @@ def run_rust_case(item):
             mt[nm] = B(nm, 8)
             ins[idx] = z3.ZeroExt(24, mt[nm])
         ins[730] = 1
-        assumptions += [mt["mti_period"] == 3, mt["sti_period"] == 5]
+        # with the timers running only the master enable and the two timer sources vary; no key latch
+        assumptions += [mt["mti_period"] == 3, mt["sti_period"] == 5, (imr & 0x7C) == 0, (isr & 0xFC) == 0, latch == 0]
 
     def prep():
         hooks = {"verif_in": lambda m, i: ins.get(i, 0), "verif_out": lambda m, i, v: None, "verif_load": lambda m, a: 0, "verif_store": lambda m, a, v: None}
@@ -304,6 +306,9 @@ def run_python_case(item):
                 setattr(sch, nm, mt[nm])
             core.engine().assume(mt["mti_period"] == 3)
             core.engine().assume(mt["sti_period"] == 5)
+            core.engine().assume((imr & 0x7C) == 0)
+            core.engine().assume((isr & 0xFC) == 0)
+            core.engine().assume(SymInt.var("latch", 1) == 0)
             sch.enabled = True
         n0 = emu.instruction_count
         tot0 = int(emu.irq_counts.get("total", 0))
